@@ -12,29 +12,30 @@ from __future__ import annotations
 from ..peval import Opaque, PEval, PEvalUnsupported, Raised
 from ..types import NODE_Q
 from .c07_worlds import mk
+from .worlds import mkc
 
 
 def build():
     """root(a1(x1(a2), b1), b2, a3(b3(a4)), c1, a5)"""
     n = {}
-    n["a2"] = mk("a")
-    n["x1"] = mk("x", None, [n["a2"]])
-    n["b1"] = mk("b")
-    n["a1"] = mk("a", None, [n["x1"], n["b1"]])
-    n["b2"] = mk("b")
-    n["a4"] = mk("a")
-    n["b3"] = mk("b", None, [n["a4"]])
-    n["a3"] = mk("a", None, [n["b3"]])
-    n["c1"] = mk("c")
-    n["a5"] = mk("a")
-    n["root"] = mk("root", None, [n["a1"], n["b2"], n["a3"], n["c1"], n["a5"]])
-    n["orphan"] = mk("a")
+    n["a2"] = mkc("a")
+    n["x1"] = mkc("x", None, [n["a2"]])
+    n["b1"] = mkc("b")
+    n["a1"] = mkc("a", None, [n["x1"], n["b1"]])
+    n["b2"] = mkc("b")
+    n["a4"] = mkc("a")
+    n["b3"] = mkc("b", None, [n["a4"]])
+    n["a3"] = mkc("a", None, [n["b3"]])
+    n["c1"] = mkc("c")
+    n["a5"] = mkc("a")
+    n["root"] = mkc("root", None, [n["a1"], n["b2"], n["a3"], n["c1"], n["a5"]])
+    n["orphan"] = mkc("a")
     return n
 
 
 def descendants(x):
     out = []
-    for c in x["children"]:
+    for c in x["_children"]:
         out.append(c)
         out.extend(descendants(c))
     return out
@@ -43,7 +44,7 @@ def descendants(x):
 def by_path(x, path):
     cur = [x]
     for name in path:
-        cur = [c for y in cur for c in y["children"] if c["name"] == name]
+        cur = [c for y in cur for c in y["_children"] if c["_name"] == name]
     return cur
 
 
@@ -51,7 +52,7 @@ def ancestry(x):
     out = []
     while x is not None:
         out.insert(0, x)
-        x = x["parent"]
+        x = x["_parent"]
     return out
 
 
@@ -99,10 +100,10 @@ AMBIGUOUS = object()
 def reference(n, q, rk, arg):
     r = n[rk]
     if q in ("find_child", "find_all_children"):
-        kids = [c for c in r["children"] if c["name"] == arg[1]]
+        kids = [c for c in r["_children"] if c["_name"] == arg[1]]
         return kids if q == "find_all_children" else (kids[0] if kids else None)
     if q in ("find_descendant", "find_all_descendants"):
-        des = [d for d in descendants(r) if d["name"] == arg[1]]
+        des = [d for d in descendants(r) if d["_name"] == arg[1]]
         return des if q == "find_all_descendants" else (des[0] if des else None)
     if q == "find_all_nodes_by_path":
         return by_path(r, arg[1]) if arg[1] else []
@@ -113,13 +114,13 @@ def reference(n, q, rk, arg):
         for name in arg[1]:
             if greedy is None:
                 break
-            greedy = next((c for c in greedy["children"] if c["name"] == name), None)
+            greedy = next((c for c in greedy["_children"] if c["_name"] == name), None)
         first = allp[0] if allp else None
         return first if greedy is first else AMBIGUOUS
     if q == "get_ancestry":
         return ancestry(r)
     if q == "child_index":
-        return next((i for i, c in enumerate(r["children"]) if c is n[arg[1]]), None)
+        return next((i for i, c in enumerate(r["_children"]) if c is n[arg[1]]), None)
     raise KeyError(q)
 
 
